@@ -50,6 +50,11 @@ class PathCtx:
         self.notes = []
         self.syms = {}
         self.diff_log = None
+        self.decided = {}      # ast id -> (expr kept alive, bool): conditions already decided on this path
+        self.known = {}        # ast id of a BV constant symbol -> (symbol, int): pinned by the path condition
+        self.probed = {}
+        self.char_src = {}     # ast id of a decoded 1-byte char term -> its byte symbol
+        self.pin_probe = False
 
     # ------------------------------------------------------------------ symbols
     def bv(self, name, w):
@@ -109,25 +114,104 @@ class PathCtx:
                     self.model_valid = False
             self.get_model()
 
-    def choose(self, conds):
-        """conds: mutually exclusive, jointly exhaustive z3 Bools.  Returns the chosen index."""
+    def _remember(self, conds, chosen):
+        for i, c in enumerate(conds):
+            self.decided[c.get_id()] = (c, i == chosen)
+
+    def learn(self, sym, val):
+        """record that the path condition pins the BV symbol `sym` to the integer `val`"""
+        self.known[sym.get_id()] = (sym, val)
+
+    def conc(self, b):
+        """concrete value of a symbol pinned by the path condition, else the term itself"""
+        if self.known:
+            k = self.known.get(b.get_id())
+            if k is not None:
+                return k[1]
+        return b
+
+    def pin(self, b):
+        """ask the solver whether the path condition leaves exactly one value for byte symbol b
+        (used by harnesses whose inputs range over a small alphabet); learns and returns it.
+        The answer is recorded in the decision list so that replays behave identically."""
+        k = self.known.get(b.get_id())
+        if k is not None:
+            return k[1]
+        pr = self.probed.get(b.get_id())
+        if pr is not None and pr[1] == self.pc_len:
+            return None
         if self.pos < len(self.prefix):
-            i = self.prefix[self.pos]
+            d = self.prefix[self.pos]
             self.pos += 1
-            self.decisions.append(i)
-            self.add(conds[i])
-            self.model_valid = False
+            self.decisions.append(d)
+            if not isinstance(d, tuple):
+                raise Inconclusive('replay misaligned at a pin probe')
+            if d[1] is not None:
+                self.known[b.get_id()] = (b, d[1])
+            else:
+                self.probed[b.get_id()] = (b, self.pc_len)
+            return d[1]
+        m = self.get_model()
+        c = m.eval(b, model_completion=True)
+        r = self._check(b != c)
+        self.pos += 1
+        if r == z3.unsat:
+            self.known[b.get_id()] = (b, c.as_long())
+            self.decisions.append(('p', c.as_long()))
+            return c.as_long()
+        if r != z3.sat:
+            raise Inconclusive('solver returned %s at a pin probe' % r)
+        self.probed[b.get_id()] = (b, self.pc_len)
+        self.decisions.append(('p', None))
+        return None
+
+    def choose(self, conds, hint=None):
+        """conds: mutually exclusive, jointly exhaustive z3 Bools.  Returns the chosen index.
+        Conditions already decided on this path are answered from a cache (deterministically, so
+        replays stay aligned) without consuming a decision.  A decision whose alternatives are all
+        infeasible is *forced*: it is recorded as ~index and its condition (implied by the path
+        condition) is not asserted again."""
+        live = []
+        for i, c in enumerate(conds):
+            d = self.decided.get(c.get_id())
+            if d is not None:
+                if d[1]:
+                    return i
+                continue
+            live.append(i)
+        if not live:
+            raise Infeasible()
+        if len(live) == 1 and len(conds) > 1:
+            i = live[0]
+            self.decided[conds[i].get_id()] = (conds[i], True)
+            return i
+        if self.pos < len(self.prefix):
+            d = self.prefix[self.pos]
+            self.pos += 1
+            self.decisions.append(d)
+            if isinstance(d, tuple):
+                raise Inconclusive('replay misaligned at a branch')
+            if d < 0:
+                i = ~d
+            else:
+                i = d
+                self.add(conds[i])
+                self.model_valid = False
+            self._remember(conds, i)
             return i
         m = self.get_model()
         chosen = None
-        for i, c in enumerate(conds):
-            if z3.is_true(m.eval(c, model_completion=True)):
-                chosen = i
-                break
+        if hint is not None and hint in live:
+            chosen = hint
+        else:
+            for i in live:
+                if z3.is_true(m.eval(conds[i], model_completion=True)):
+                    chosen = i
+                    break
         if chosen is None:
             # the model is partial in an unlucky way: decide by query
-            for i, c in enumerate(conds):
-                r = self._check(c)
+            for i in live:
+                r = self._check(conds[i])
                 if r == z3.sat:
                     chosen = i
                     self.model = self.solver.model()
@@ -137,17 +221,23 @@ class PathCtx:
             if chosen is None:
                 raise Infeasible()
         base = tuple(self.decisions)
-        for i, c in enumerate(conds):
+        forked = False
+        for i in live:
             if i == chosen:
                 continue
-            r = self._check(c)
+            r = self._check(conds[i])
             if r == z3.sat:
                 self.new_prefixes.append(base + (i,))
+                forked = True
             elif r != z3.unsat:
                 raise Inconclusive('solver returned %s at a branch' % r)
-        self.decisions.append(chosen)
         self.pos += 1
-        self.add(conds[chosen])
+        if forked:
+            self.decisions.append(chosen)
+            self.add(conds[chosen])
+        else:
+            self.decisions.append(~chosen)
+        self._remember(conds, chosen)
         # the cached model satisfies conds[chosen], so it remains a model of the path condition
         return chosen
 
